@@ -157,5 +157,7 @@ def run(ctx):
     cs = [const_val(pi.argv(b, 1)) for b, _ in nw]
     rep.check(r4, cs == [0], 'dispatcher-is-case-sensitive', 'the protocol matcher is built with nocase=%s (an unknown method differing from a known one only by letter case must not be dispatched)' % cs, pi.loc(nw[0][0]) if nw else '')
     dispatch_sound(ctx, 'C13', 'a request reaches the HTTP responder')
+    table_never_shrinks(ctx, 'C13')
+    no_abort_in(ctx, 'C13', r'proto::http::', 'answering HTTP')
 
 
